@@ -70,8 +70,8 @@ Act(e) == LET a == e.args IN
      [] e.ev = "Root"       -> Root /\ DumpMatches(e.live, acc', val', wq', rec', rel')
      [] e.ev = "Commit"     -> Commit /\ DumpMatches(e.live, acc', val', wq', rec', rel')
      [] e.ev = "Reload"     -> Reload /\ DumpMatches(e.live, acc', val', wq', rec', rel')
-     [] e.ev = "Copy"       -> CopyStep("Copy") /\ DumpMatches(e.orig, acc, val, wq, rec, rel) /\ (copyOk' <=> e.copy[8] = "")
-     [] e.ev = "CopySwap"   -> CopyStep("CopySwap") /\ DumpMatches(e.orig, acc, val, wq, rec, rel) /\ (copyOk' <=> e.copy[8] = "")
+     [] e.ev = "Copy"       -> CopyStep("Copy") /\ DumpMatches(e.orig, acc, val, wq, rec, rel) /\ (copyOk' <=> e.copy = e.orig)
+     [] e.ev = "CopySwap"   -> CopyStep("CopySwap") /\ DumpMatches(e.orig, acc, val, wq, rec, rel) /\ (copyOk' <=> e.copy = e.orig)
      [] OTHER -> FALSE
 
 \* the end marker of a behaviour: the main object's final dump (after a last root computation) against the model
